@@ -248,7 +248,7 @@ def _str_hook(figures):
     def hook(recv, method, args, kw):
         if method == "format" and len(args) == 1 and isinstance(args[0], (S.SymReal, z3.ExprRef)):
             return CountText(_fmt_len(recv, args, kw, figures))
-        return Opaque()          # any other built text (messages): may not be written to the file
+        return pyvc.OpaqueStr()          # any other built text (messages): may not be written to the file
     return hook
 
 
